@@ -236,7 +236,7 @@ func (w *World) runHarness(h *Harness, workers int, solverKind string, nvalid in
 				var sample *pathSample
 				if pr.Stop.kind == "done" {
 					mu.Lock()
-					want := res.Done < nvalid
+					want := res.Done < nvalid && !h.NoValidate
 					mu.Unlock()
 					if want {
 						sample = e.modelSample(pr)
